@@ -24,7 +24,7 @@ from sdc11073.location import SdcLocation
 from sdc11073.xml_types import pm_types
 
 from .. import core
-from ..c10world import CtxHistory, mk_world
+from ..c10world import CtxHistory, ctx_snapshot, mk_world
 from ..mdibharness import MDIB_FILES
 
 MODULE = 'vf.props.c10'
@@ -388,6 +388,29 @@ class Driver:
                 self.ctx.count('set_location.publish_refused_state_without_identification')  # scopes factory, after the commit
         return {'mech': 'set_location', 'via': via, 'validators': None if validators is None else len(validators), 'explicit_handle': handle_arg is not None}
 
+    def failing_change(self):
+        """context changes that fail half way (an exception after states were already disassociated inside the transaction): nothing may
+        become visible."""
+        rng = self.rng
+        sub = rng.choice(['set_location_empty', 'set_location_empty_provider', 'transaction_body_raises', 'transaction_body_raises_after_mk'])
+        d = rng.choice(self.descrs)
+        try:
+            if sub == 'set_location_empty':
+                self.mdib.xtra.set_location(SdcLocation(), location_context_descriptor_handle=rng.choice(self.loc_descrs))
+            elif sub == 'set_location_empty_provider':
+                self.world.provider.set_location(SdcLocation(), location_context_descriptor_handle=rng.choice(self.loc_descrs))
+            else:
+                with self.mdib.context_state_transaction() as mgr:
+                    mgr.disassociate_all(d)
+                    if sub.endswith('after_mk'):
+                        mgr.mk_context_state(d, None, set_associated=True)
+                    raise RuntimeError('vf: the application fails inside the transaction')
+            outcome = 'no_exception'
+        except Exception as ex:  # noqa: BLE001
+            outcome = type(ex).__name__
+        self.ctx.count(f'failing_change.{sub}.{outcome}')
+        return {'mech': 'failing_change', 'sub': sub, 'result': outcome}
+
     def transaction(self):
         rng = self.rng
         d = rng.choice(self.descrs)
@@ -494,6 +517,8 @@ def w_sequences(ctx: core.Ctx, arg):
                         action = drv.entity()
                     elif r < 0.37:
                         action = drv.reject_handle_reuse()
+                    elif r < 0.42:
+                        action = drv.failing_change()
                     else:
                         action = drv.invoke(TEMPLATES[step % len(TEMPLATES)] if step < 2 * len(TEMPLATES) else rng.choice(TEMPLATES), detail)
                 except Exception as ex:  # noqa: BLE001
@@ -508,6 +533,18 @@ def w_sequences(ctx: core.Ctx, arg):
                 for v, hs in commits:
                     judge_commit(ctx, hist, v, hs, action, detail)
                 watch.judge_pending()
+                # what is in the table now is what the last commit made visible: a change that was not committed must not be there
+                with world.mdib.mdib_lock:
+                    now = ctx_snapshot(world.mdib)
+                last = hist.by_version.get(now['v'])
+                ctx.count('quiescent.table_vs_last_commit')
+                if last is not None and now != last:
+                    diff = sorted(h for h in set(now['states']) | set(last['states']) if now['states'].get(h) != last['states'].get(h))
+                    ctx.witness(f'{action["mech"]}.visible_without_commit', 'the context states in the MDIB differ from what the last commit made visible '
+                                '(MdibVersion unchanged)', {**detail, 'action': action, 'handles': diff[:4],
+                                                            'now': [_show(now['states'][h]) for h in diff[:2] if h in now['states']],
+                                                            'committed': [_show(last['states'][h]) for h in diff[:2] if h in last['states']]})
+                    hist.by_version[now['v']] = now   # reported once
                 shapes.append((action['mech'], action.get('template') or action.get('sub') or action.get('via'), action.get('proposals'),
                                action.get('result'), tuple(len(hs) for _, hs in commits)))
                 if commits:
